@@ -11,6 +11,7 @@
 #[cfg(feature = "python")]
 use pyo3::prelude::*;
 
+#[cfg_attr(feature = "verif_seam", allow(unused_imports))]
 use std::{fs::File, io::Read, path::Path};
 
 use core::ops::Index;
@@ -36,6 +37,8 @@ pub struct LeapSecondsFile {
 impl LeapSecondsFile {
     /// Builds a leap second provider from the provided Leap Seconds file in IERS format as found on <https://www.ietf.org/timezones/data/leap-seconds.list> .
     pub fn from_path<P: AsRef<Path>>(path: P) -> Result<Self, HifitimeError> {
+        #[cfg(feature = "verif_seam")]
+        use super::verif_seam::File;
         let mut f = match File::open(path) {
             Ok(f) => f,
             Err(e) => {
